@@ -656,6 +656,41 @@ def rule_reported_by_layer(rep, repo):
                   [internal.get(id(q), repr(q)) for q in held]
                   if isinstance(held, list) else held), loc=loc,
               instance=name)
+    # one quantizer OBJECT handed in for every role (kernel and bias share
+    # it): whatever the constructor does with it, what get_quantizers()
+    # reports for a role is the very object the layer applies for that role
+    pos = {}
+    if isinstance(got, list):
+      for p in qparams:
+        o_ = holder.attrs.get(p + "_internal")
+        for i_, g_ in enumerate(got):
+          if o_ is not None and g_ is o_:
+            pos[p] = i_
+    pe_s = layer_pe(repo, ci, name)
+    shared_q = pe_s.call(pe_s.lookup_global("quantized_bits", qmod), [],
+                         dict(bits=4, integer=0, keep_negative=True))
+    kw_s = {p: shared_q for p in qparams}
+    for p_, v_ in (("units", 4), ("filters", 8), ("kernel_size", 3),
+                   ("pool_size", 2)):
+      if p_ in params:
+        kw_s[p_] = v_
+    try:
+      layer_s = pe_s.call(ClassRef(ci), [], dict(kw_s))
+      got_s = pe_s.call(pe_s.getattr(layer_s, "get_quantizers"), [], {})
+    except (PyRaise, Unsupported):
+      continue
+    holder_s = layer_s
+    if "quantizers" not in layer_s.attrs and isinstance(
+        layer_s.attrs.get("cell"), Obj):
+      holder_s = layer_s.attrs["cell"]
+    wrong = [p for p, i_ in sorted(pos.items())
+             if not (isinstance(got_s, list) and i_ < len(got_s) and
+                     got_s[i_] is holder_s.attrs.get(p + "_internal"))]
+    rep.check(not wrong, "R5", unit, "reported-quantizer-is-not-the-applied-"
+              "object", "%s built with ONE quantizer object for %s: "
+              "get_quantizers() does not hand out the object the layer "
+              "applies for %s" % (name, qparams, wrong), loc=loc,
+              instance=name + "/shared object")
   rep.extra["layers_asked_for_their_quantizers"] = n
   if n < 12:
     raise AnalysisError("instance-count only %d layer classes answered "
